@@ -154,6 +154,8 @@ def gen_sim(rng):
     return {'kind': 'sim', 'events': events, 'ts': ts, 'runs': runs, 'clock0': clock0,
             'gtime0': gtime0, 'vars0': vars0, 'holder': holder, 'hts': rng.choice([1, 2, 3, 5, 7]),
             'via': rng.choice(['add_timeline', 'direct']),
+            # a pilot simulation of that length with the same process objects, before the one that is judged
+            'pilot': rng.choice([0, 0, 0, 0, 2, 5, 9]),
             'perm': order_preserving_perm(rng, events)}
 
 
@@ -357,6 +359,15 @@ def _run_engine(case, events):
         h = HolderProc({'time_step': case['hts']})
         processes['holder'] = h
     topology['holder'] = {k: (k,) for k in h.ports_schema()}
+    if case.get('pilot'):
+        # the same process objects were simulated before (a composite built once, used for a pilot run): the
+        # timeline starts afresh in the engine that is judged
+        pilot = Engine(processes=processes, topology=topology, display_info=False, emitter={'type': 'null'},
+                       initial_state={'global': {'time': case['clock0']}},
+                       initial_global_time=case['gtime0'], **kw)
+        pilot.update(case['pilot'])
+        pilot.end()
+        del calls[:]
     eng = Engine(processes=processes, topology=topology, display_info=False,
                  store_schema={'global': {'time': {'_emit': True}}},
                  initial_state={'global': {'time': case['clock0']}},
